@@ -564,6 +564,11 @@ func (sp *subProcess) run(ctx context.Context, out tracing.ITracer) {
 					sp.active.Add(1)
 					defer sp.active.Add(-1)
 
+					// subscribe before the inner flows start: a sub-process that
+					// finishes quickly would otherwise emit its cease-flow trace unseen
+					traces := sp.subTracer.Subscribe()
+					defer sp.subTracer.Unsubscribe(traces)
+
 					if err := sp.startAll(ctx); err != nil {
 						subProcessId := ""
 						if pid, present := sp.element.Id(); present {
@@ -576,8 +581,6 @@ func (sp *subProcess) run(ctx context.Context, out tracing.ITracer) {
 						return
 					}
 
-					traces := sp.subTracer.Subscribe()
-					defer sp.subTracer.Unsubscribe(traces)
 				loop:
 					for {
 						var trace tracing.ITrace
@@ -617,10 +620,14 @@ func (sp *subProcess) NextAction(ctx context.Context, flow Flow) chan IAction {
 	if sp.active.CompareAndSwap(0, 1) {
 		// flow nodes
 		// StartAll cease flow monitor
+		// The monitor watches the inner flows and reports their completion on
+		// the inner tracer, where the activation started by run waits for it;
+		// reported on the parent's tracer the cease-flow trace never reached it
+		// (the parent's token stayed in the sub-process for ever) and looked
+		// like the completion of the enclosing process to its observers.
 		sender := sp.subTracer.RegisterSender()
-		tracer := sp.wr.tracer
-		go sp.ceaseFlowMonitor(tracer)(ctx, sender)
-		go sp.run(ctx, tracer)
+		go sp.ceaseFlowMonitor(sp.subTracer)(ctx, sender)
+		go sp.run(ctx, sp.wr.tracer)
 	}
 
 	response := make(chan IAction, 1)
